@@ -6,7 +6,7 @@ usage: run_seeded.py [seeded-dir-glob] [--all-props]"""
 import os, sys, glob, json, shutil, subprocess, re, concurrent.futures
 V = os.path.dirname(os.path.dirname(os.path.abspath(__file__)))
 pat = sys.argv[1] if len(sys.argv) > 1 and not sys.argv[1].startswith('--') else 'C*'
-dirs = sorted(glob.glob(os.path.join(V, 'seeded', pat)))
+dirs = sorted(d for q in pat.split(',') for d in glob.glob(os.path.join(V, 'seeded', q)) if os.path.isdir(d))
 SCR = os.environ.get('SEEDRUN', '/tmp/seedrun_%d' % os.getpid())
 
 def one(d):
@@ -43,5 +43,8 @@ with concurrent.futures.ThreadPoolExecutor(max_workers=4) as ex:
             meta['detected_by'] = [{'check': './check %s --tier quick' % pid, 'result': res}]
             json.dump(meta, open(mp, 'w'), indent=1)
 if '--record' in sys.argv:
+    rp = os.path.join(V, 'seeded', 'RESULTS.json')
+    if pat != 'C*' and os.path.exists(rp):      # partial run: merge into the recorded results
+        results = dict(json.load(open(rp)), **results)
     json.dump(results, open(os.path.join(V, 'seeded', 'RESULTS.json'), 'w'), indent=1, sort_keys=True)
 shutil.rmtree(SCR, ignore_errors=True)
